@@ -240,7 +240,11 @@ class SumAggregator:
 
                 trigger = self._get_trigger(elem.terms[0], elem.condition)
 
-                if trigger is None or not self._group_is_visible(trigger, elem.terms[1:], outer_vars or set()):
+                if (
+                    trigger is None
+                    or not self._group_is_visible(trigger, elem.terms[1:], outer_vars or set())
+                    or PREV.name in (var.name for var in collect_ast(elem, "Variable"))  # used by the replacement
+                ):
                     newelements.append(elem)
                     continue
                 trigger_lit, trigger_index, trigger_anon_pred = trigger
@@ -342,7 +346,11 @@ class SumAggregator:
             return [minimize]
         trigger = self._get_trigger(minimize_var, minimize.body)
 
-        if trigger is None or not self._group_is_visible(trigger, [minimize.priority] + list(minimize.terms), set()):
+        if (
+            trigger is None
+            or not self._group_is_visible(trigger, [minimize.priority] + list(minimize.terms), set())
+            or PREV.name in (var.name for var in collect_ast(minimize, "Variable"))  # used by the replacement
+        ):
             return [minimize]
         trigger_lit, trigger_index, trigger_anon_pred = trigger
         log.info(f"Replace {trigger_anon_pred.pred.name}/{trigger_anon_pred.pred.arity} inside an objective function.")
